@@ -315,6 +315,8 @@ def generate(rng, tier, shard, nshards):
     for i in range(1 if tier == "quick" else gens.reps(2, tier)):
         N = int(rng.integers(500, 1300)) if tier == "quick" else int(rng.integers(500, 4000))
         x = gens.logu(rng, 0.3, 6.0) if i % 2 else gens.logu(rng, 1.5, 6.0)
+        if tier == "quick" or i % 4 == 2:      # the band just below the recorded FKF finding (2.5-2.9 rad per sample, 1500 samples): the unchanged filters all survive it
+            N, x = 1500, float(rng.uniform(2.5, 2.9))
         w = gens.axis(rng) * x / 0.01
         g = np.tile(w, (N, 1)) * (1.0 + 0.05 * rng.standard_normal((N, 1)))
         dip = np.radians(rng.uniform(-70, 70))
